@@ -44,8 +44,43 @@ def base_config(on_error="continue", test_mode=False):
     return cfg
 
 
+class FixedIntervalScheduler:
+    """a custom ("regular": before_request / after_request / next) scheduler as a track plugin registers it: one request every
+    <sim-interval> seconds per client; the task that uses it needs no target throughput (scheduler.run_unthrottled)"""
+
+    name = "sim-fixed-interval"
+
+    def __init__(self, task):
+        self.interval = task.params["sim-interval"]
+        self.first = True
+
+    def before_request(self, now):
+        pass
+
+    def after_request(self, now, weight, unit, request_meta_data):
+        pass
+
+    def next(self, current):
+        if self.first:
+            self.first = False
+            return 0
+        return current + self.interval
+
+
+def register_custom_scheduler():
+    from esrally.driver import scheduler  # pylint: disable=import-outside-toplevel
+
+    try:
+        scheduler.remove_scheduler(FixedIntervalScheduler.name)
+    except KeyError:
+        pass
+    scheduler.register_scheduler(FixedIntervalScheduler.name, FixedIntervalScheduler)
+
+
 def build_task(spec, name="t"):
     params = {}
+    if spec.get("custom_interval") is not None:
+        params["sim-interval"] = spec["custom_interval"]
     tp = spec.get("throughput")
     if tp is not None:
         if tp["kind"] == "number":
@@ -123,6 +158,8 @@ def run_task(spec, complete_at=None, cancel_at=None):
     world.register()
     if spec.get("op_type") == "sim-op-completing":
         world.register_completing_runner()
+    if spec.get("schedule") == FixedIntervalScheduler.name:
+        register_custom_scheduler()
     task = build_task(spec)
     w.tasks[task.name] = task_script(spec)
     random.seed(spec.get("seed", 0))
